@@ -330,6 +330,53 @@ func VerifC16_FetchVersusOthers() {
 	}
 }
 
+// VerifC16_CleanVersusStore: another client's complete Store runs inside a
+// CleanEntry, before its k-th backend operation: the version that Store
+// reported as stored is what a later Fetch returns (cleaning never removes a
+// package that arrived while it was looking).
+func VerifC16_CleanVersusStore() {
+	kind := CacheTypes[verif.Choice("kind", 2)]
+	inner := vSetup(kind, 3)
+	ctx := context.Background()
+	a := vNewClient(kind, inner)
+	verif.Assert("first_store", a.cache.Store(ctx, vKey, "/src1") == nil)
+	verif.Advance(10 * time.Millisecond)
+	if verif.Bool("twoVersionsBefore") {
+		verif.Assert("second_store", a.cache.Store(ctx, vKey, "/src2") == nil)
+		verif.Advance(10 * time.Millisecond)
+	}
+	k := verif.Len("k", 1, 40) // a CleanEntry issues far fewer operations than a Store
+	n, ran := 0, false
+	var errB error
+	b := vNewClient(kind, inner)
+	c := vNewClient(kind, inner)
+	c.rec.before = func(op *vOp) error {
+		if vIsHeartbeat(op) {
+			return nil
+		}
+		n++
+		if n == k && !ran {
+			ran = true
+			verif.Advance(5 * time.Millisecond)
+			errB = b.cache.Store(ctx, vKey, "/src3")
+			verif.Advance(5 * time.Millisecond)
+		}
+		return nil
+	}
+	_ = c.cache.CleanEntry(ctx, vKey)
+	verif.Assume(ran)
+	verif.Advance(10 * time.Millisecond)
+	d := vNewClient(kind, inner)
+	err3 := d.cache.Fetch(ctx, vKey, "/dest")
+	if errB == nil {
+		verif.Assert("fetch_after_a_successful_store_succeeds", err3 == nil)
+		verif.Assert("a_successful_store_is_what_fetch_returns", vWhichVersion(inner, "/dest", 3) == 3)
+	} else if err3 == nil {
+		v := vWhichVersion(inner, "/dest", 3)
+		verif.Assert("fetch_installs_one_complete_version", v >= 1 && v <= 3)
+	}
+}
+
 func VerifC16_Probe() {
 	kind := CacheTypes[verif.Choice("kind", 2)]
 	inner := vSetup(kind, 2)
